@@ -21,7 +21,8 @@ Proved for ALL valid units systems (hence all 11×10×10), all dimensions, all v
 PARTIAL: the lifting of the level-wise re-scaling lemmas through `buildSystem` (network + space + default state, i.e.
 `si_rescale_state` for whole descriptions) is not proved as one theorem; it is exercised by the correspondence
 `build_system` on both members of every generated pair and by the pairwise oracle on the real code.  The Euler
-commutation is proved for graphs (grids need the geometry hypothesis of C01).
+commutation is proved for graphs and (round 2) for every valid grid (`euler_step_commutes_with_conv_grid`,
+`euler_traj_units_invariant_grid`).
 -/
 import Strengths.Model.Build
 import Strengths.Props.C01
@@ -329,6 +330,113 @@ theorem euler_traj_units_invariant (a b c : Rat) (ha : a ≠ 0) (hb : b ≠ 0) (
       exact euler_step_commutes_with_conv a b c ha hb hc P nEnv edges chem x dt i s hV hfaces
     rw [hstep]
     exact ih _ i s
+
+/-! ## The same on grids (unconditional since the grid theorems of C01 are) -/
+
+theorem scaled_grid_faces (a h : Rat) (ha : a ≠ 0) (w hh d : Nat) (px py pz : Bool) (i : Nat) :
+    gridFaces w hh d px py pz (h / a) i
+      = (gridFaces w hh d px py pz h i).map fun f => ⟨f.nbr, f.sfc / a ^ 2, f.dst / a⟩ := by
+  unfold gridFaces
+  rw [List.map_map]
+  apply List.map_congr_left
+  intro j _
+  simp only [Function.comp, Face.mk.injEq, true_and]
+  constructor
+  · field_simp
+  · trivial
+
+/-- one Euler step on any valid grid in the scaled units is the scaled Euler step -/
+theorem euler_step_commutes_with_conv_grid (a b c : Rat) (ha : a ≠ 0) (hb : b ≠ 0) (hc : c ≠ 0) (P : Phys) (nEnv : Nat)
+    (g : GridShape) (h : Rat) (chem : Nat → Nat → Bool) (x : State) (dt : Rat) (i s : Nat)
+    (hv : g.valid = true) (hi : i < g.size) (hh : h ≠ 0) (hvol : ∀ j, P.vol j = h ^ 3) (hedge : ∀ j, P.edge j = h)
+    (hfaces : P.faces i = gridFaces g.w g.h g.d g.px g.py g.pz h i) :
+    (eulerStep (engOfPhysGrid (scalePhys a b c P) nEnv g (h / a) chem) (dt / b) (scaleState c x)) i s
+      = (scaleState c (eulerStep (engOfPhysGrid P nEnv g h chem) dt x)) i s := by
+  by_cases hch : chem i s = true
+  · rw [C03.euler_step_fixes_flagged _ _ _ i s hch]
+    show x.get i s / c = (eulerStep (engOfPhysGrid P nEnv g h chem) dt x).get i s / c
+    rw [C03.euler_step_fixes_flagged _ _ _ i s hch]
+  · have hcf : chem i s = false := by simpa using hch
+    have hV : ∀ j, P.vol j ≠ 0 := fun j => by rw [hvol]; exact pow_ne_zero 3 hh
+    have hha : h / a ≠ 0 := div_ne_zero hh ha
+    have hvol' : ∀ j, (scalePhys a b c P).vol j = (h / a) ^ 3 := fun j => by
+      show P.vol j / a ^ 3 = _
+      rw [hvol, div_pow]
+    have hedge' : ∀ j, (scalePhys a b c P).edge j = h / a := fun j => by
+      show P.edge j / a = _
+      rw [hedge]
+    have hf' : (scalePhys a b c P).faces i = gridFaces g.w g.h g.d g.px g.py g.pz (h / a) i := by
+      rw [scaled_grid_faces a h ha]
+      show (P.faces i).map _ = _
+      rw [hfaces]
+    rw [C01.euler_step_grid_all (scalePhys a b c P) nEnv g (h / a) chem (scaleState c x) (dt / b) i s hv hi hha hvol' hedge' hf' hcf]
+    show x.get i s / c + dt / b * rate (scalePhys a b c P) (fun i s => x.get i s / c) s i
+      = (eulerStep (engOfPhysGrid P nEnv g h chem) dt x).get i s / c
+    rw [rate_homogeneous a b c ha hb hc P x.get s i hV,
+      C01.euler_step_grid_all P nEnv g h chem x dt i s hv hi hh hvol hedge hfaces hcf]
+    field_simp
+
+/-- trajectories on any valid grid: after any fixed number of steps the state computed in the scaled units is the scaled
+state (entries of the grid's cells) -/
+theorem euler_traj_units_invariant_grid (a b c : Rat) (ha : a ≠ 0) (hb : b ≠ 0) (hc : c ≠ 0) (P : Phys) (nEnv : Nat)
+    (g : GridShape) (h : Rat) (chem : Nat → Nat → Bool) (dt : Rat)
+    (hv : g.valid = true) (hh : h ≠ 0) (hvol : ∀ j, P.vol j = h ^ 3) (hedge : ∀ j, P.edge j = h)
+    (hfaces : ∀ i, i < g.size → P.faces i = gridFaces g.w g.h g.d g.px g.py g.pz h i) (n : Nat) (x y : State)
+    (hxy : ∀ i s, i < g.size → y i s = x i s / c) :
+    ∀ i s, i < g.size →
+      (C03.eulerIter (engOfPhysGrid (scalePhys a b c P) nEnv g (h / a) chem) (dt / b) n y) i s
+        = (C03.eulerIter (engOfPhysGrid P nEnv g h chem) dt n x) i s / c := by
+  induction n generalizing x y with
+  | zero => intro i s hi; exact hxy i s hi
+  | succ n ih =>
+    intro i s hi
+    simp only [C03.eulerIter]
+    apply ih
+    intro i' s' hi'
+    -- one step from states that agree on the grid's cells: the step of cell i' reads only cells of the grid
+    have hstep := euler_step_commutes_with_conv_grid a b c ha hb hc P nEnv g h chem x dt i' s' hv hi' hh hvol hedge (hfaces i' hi')
+    have hloc : (eulerStep (engOfPhysGrid (scalePhys a b c P) nEnv g (h / a) chem) (dt / b) y) i' s'
+        = (eulerStep (engOfPhysGrid (scalePhys a b c P) nEnv g (h / a) chem) (dt / b) (scaleState c x)) i' s' := by
+      by_cases hch : chem i' s' = true
+      · rw [C03.euler_step_fixes_flagged _ _ _ i' s' hch, C03.euler_step_fixes_flagged _ _ _ i' s' hch]
+        exact hxy i' s' hi'
+      · have hcf : chem i' s' = false := by simpa using hch
+        have hV' : ∀ j, (scalePhys a b c P).vol j = (h / a) ^ 3 := fun j => by
+          show P.vol j / a ^ 3 = _
+          rw [hvol, div_pow]
+        have hE' : ∀ j, (scalePhys a b c P).edge j = h / a := fun j => by
+          show P.edge j / a = _
+          rw [hedge]
+        have hF' : (scalePhys a b c P).faces i' = gridFaces g.w g.h g.d g.px g.py g.pz (h / a) i' := by
+          rw [scaled_grid_faces a h ha]
+          show (P.faces i').map _ = _
+          rw [hfaces i' hi']
+        have hha : h / a ≠ 0 := div_ne_zero hh ha
+        rw [C01.euler_step_grid_all _ nEnv g (h / a) chem y (dt / b) i' s' hv hi' hha hV' hE' hF' hcf,
+          C01.euler_step_grid_all _ nEnv g (h / a) chem (scaleState c x) (dt / b) i' s' hv hi' hha hV' hE' hF' hcf]
+        -- the rate at cell i' depends on the state at i' and at its neighbours, all cells of the grid
+        have hrate : rate (scalePhys a b c P) y.get s' i' = rate (scalePhys a b c P) (scaleState c x).get s' i' := by
+          unfold rate reactionPart diffusionPart massAction conc
+          have hself : ∀ s'', y.get i' s'' = (scaleState c x).get i' s'' := fun s'' => hxy i' s'' hi'
+          have hnb : ∀ f ∈ (scalePhys a b c P).faces i', ∀ s'', y.get f.nbr s'' = (scaleState c x).get f.nbr s'' := by
+            intro f hf s''
+            rw [hF'] at hf
+            simp only [gridFaces, List.mem_map] at hf
+            obtain ⟨j, hj, rfl⟩ := hf
+            rw [← engine_slots_are_spec_nbrs hv hi'] at hj
+            simp only [List.mem_filterMap, List.mem_range] at hj
+            obtain ⟨nn, hnn, hget⟩ := hj
+            exact hxy j s'' (nbr_involutive hv hi' hnn hget).2
+          simp only [hself]
+          congr 1
+          apply sumL_congr
+          intro f hf
+          rw [hnb f hf s']
+        rw [hrate, hxy i' s' hi']
+        rfl
+    rw [hloc, hstep]
+    rfl
+    exact hi
 
 /-! ## Output units -/
 
